@@ -117,14 +117,14 @@ PROPS = {
     ),
     "C17": dict(
         level="exploration",
-        runs=dict(quick=100000, thorough=1500000),
-        rule="family spawn with the counting allocator armed in the really forked child: command-name lengths 1..255, PATH of 0-11 entries with the longest at a random position, 0-40 arguments, 0-60 environment entries, cwd lengths 1..4000 across std's 384-byte stack buffer, all stream configurations, exec succeeding at candidate j or failing everywhere, injected child-step failures; non-trivial = always (every run forks); distinct as C01",
+        runs=dict(quick=40000, thorough=600000),
+        rule="family spawn with the counting allocator armed in the really forked child: command-name lengths 1..255, PATH of 0-11 entries with the longest at a random position, 0-40 arguments, 0-60 environment entries, cwd lengths 1..4000 across std's 384-byte stack buffer, all stream configurations, exec succeeding at candidate j or failing everywhere, injected child-step failures; every 4th run is a pipeline (every stage is judged); non-trivial = always (every run forks); distinct as C01",
         assumptions=COMMON_ASSUME + ["allocations made by harness code inside interposed calls are excluded by a depth flag"],
     ),
     "C18": dict(
         level="exploration",
-        runs=dict(quick=80000, thorough=1200000),
-        rule="family spawn: spawning thread's mask in {empty, one signal, random subset, all blockable}, parent SIGPIPE in {ignored, default, handler}; exec record's mask and SIGPIPE disposition checked for every child, plus the consequence: a flooding child whose reader goes away must die of SIGPIPE; non-trivial = always; distinct as C01",
+        runs=dict(quick=40000, thorough=600000),
+        rule="family spawn: spawning thread's mask in {empty, one signal, random subset, all blockable}, parent SIGPIPE in {ignored, default, handler}; exec record's mask and SIGPIPE disposition checked for every child, plus the consequence: a flooding child whose reader goes away must die of SIGPIPE; every 3rd run is a pipeline (every stage is judged; spawning threads inherit the mask); non-trivial = always; distinct as C01",
         assumptions=COMMON_ASSUME,
         expect_probes=["sigpipe_consequence_checked"],
     ),
